@@ -1167,7 +1167,7 @@ func bnBounds(c *Ctx, a *flAgg) {
 						if !bnInScope(op, map[ssa.Value]bool{}) {
 							continue
 						}
-						if f.Name() == "scan" && strings.HasSuffix(funcKey(f), "scanningState).scan") && isLenMinusOne(op) {
+						if smCovers(f) && isLenMinusOne(op) {
 							continue // SM-deref decides the typestate indices of scan
 						}
 						if isCursorOperand(op, map[ssa.Value]bool{}) {
